@@ -18,6 +18,7 @@ import (
 	"github.com/google/go-eventlog/register"
 	"github.com/google/go-eventlog/tcg"
 	"github.com/google/go-tdx-guest/rtmr"
+	"github.com/google/go-tdx-guest/validate"
 	"github.com/google/go-tdx-guest/verify"
 )
 
@@ -517,6 +518,56 @@ func c18(x *mon.Ctx) {
 				x.Broken("default-opts-independent: the customised default options do not accept the re-signed quote")
 			}
 			x.Note("default-opts-independent", "", false, false, okFirst && !leaked)
+		}
+		{ // the caller withdraws a measurement from its allow-list (or changes an expectation) IN PLACE between two calls with the
+			// same options value: the second call is judged by the policy as it is now
+			c := base.Case(world.LBase, "policy-edited-between-calls", "")
+			m := mon.MessageFor("built", c.Quote)
+			for _, size := range []int{1, 2, 31, 32, 33, 48, 64, 100} {
+				at := (size * 5) % size
+				l := make([][]byte, size)
+				rr := x.Rand(fmt.Sprint("c18-edit", size))
+				for i := range l {
+					l[i] = make([]byte, 48)
+					rr.Read(l[i])
+				}
+				l[at] = append([]byte{}, sq.MrTd...)
+				vo, _ := mon.Options(c)
+				o := rtmr.ParseTdxCcelOpts{Validation: &validate.Options{TdQuoteBodyOptions: validate.TdQuoteBodyOptions{AnyMrTd: l, ReportData: append([]byte{}, sq.ReportData...)}}, Verification: vo, ExtractOpt: extract.Opts{Loader: extract.GRUB}}
+				var hist []string
+				for _, st := range []struct {
+					name string
+					edit func()
+					want bool
+				}{
+					{"as-built", func() {}, true},
+					{"entry-overwritten-in-place", func() { rr.Read(o.Validation.TdQuoteBodyOptions.AnyMrTd[at]) }, false},
+					{"entry-restored-in-place", func() { copy(o.Validation.TdQuoteBodyOptions.AnyMrTd[at], sq.MrTd) }, true},
+					{"report-data-expectation-changed-in-place", func() { o.Validation.TdQuoteBodyOptions.ReportData[63] ^= 1 }, false},
+					{"report-data-expectation-restored", func() { o.Validation.TdQuoteBodyOptions.ReportData[63] ^= 1 }, true},
+				} {
+					st.edit()
+					var state any
+					var e error
+					pv, stk := mon.Guard(func() {
+						s1, e1 := rtmr.ParseCcelWithTdQuote(ccelData, ccelTable, m, &o)
+						e = e1
+						if s1 != nil {
+							state = s1
+						}
+					})
+					hist = append(hist, fmt.Sprintf("%s:%v", st.name, state != nil))
+					param := fmt.Sprintf("list%d/%v", size, hist)
+					switch {
+					case pv != "":
+						x.Violation("policy-edited-between-calls", param, "panic: "+pv+"\n"+stk, "none", param)
+					case (state != nil) != st.want:
+						x.Violation("policy-edited-between-calls", param, fmt.Sprintf("after %q the caller's policy %s the quote, yet the combined check returned state=%v (err=%v): it follows what the policy held at an earlier call", st.name, map[bool]string{true: "permits", false: "no longer permits"}[st.want], state != nil, e), "none", param)
+					}
+					x.Note("policy-edited-between-calls", param, state != nil, pv != "", true)
+				}
+			}
+			x.Require("policy-edited-between-calls", 24, 16, 40)
 		}
 		{ // the right nonce through the default policy, with our verification options
 			o := rtmr.TdxDefaultOpts(sq.ReportData)
